@@ -108,7 +108,7 @@ def pt(u):
     return 10.0 * u - 5.0
 
 
-def hooked_run(run, cfg, seed, what, resume_from=None, n_total=60, outdir=None, like=None, n_particles=24):
+def hooked_run(run, cfg, seed, what, resume_from=None, n_total=60, outdir=None, like=None, n_particles=24, rollback=False):
     """run with hooks: record labels seen by the trainer and the statistics/assignments entering the kernel."""
     from tempest import Sampler
     import tempest.steps.mutate as mut
@@ -169,6 +169,14 @@ def hooked_run(run, cfg, seed, what, resume_from=None, n_total=60, outdir=None, 
     try:
         if resume_from is None:
             s.run(n_total=n_total, progress=False, save_every=1 if outdir else None)
+            if rollback and outdir:
+                # the SAME sampler object goes back to one of its own checkpoints taken during annealing and continues from there: its
+                # pool shrinks and grows again under a clustering model that is still the one fitted before
+                ck = sorted(Path(outdir).glob("c14_[0-9]*.state"), key=lambda p_: int(p_.stem.split("_")[1]))
+                bts = [float(b) for b in s.state.get_history("beta")]
+                ann = [p_ for p_ in ck if int(p_.stem.split("_")[1]) <= len(bts) and bts[int(p_.stem.split("_")[1]) - 1] > 0]
+                for p_ in ann[:3]:
+                    s.run(n_total=2 * n_total, progress=False, resume_state_path=p_)
         else:
             s.run(n_total=n_total, progress=False, resume_state_path=resume_from)
     finally:
@@ -421,6 +429,25 @@ def sweep(run, tier, rng, work):
                                  resumed_from=ann[len(ann) // 2].name, **what)
                 except Exception as e:
                     run.fail("resume-with-clustering-raises", f"resuming at {ann[len(ann) // 2].name} raised {type(e).__name__}: {e}", **what)
+    # one sampler object rolled back to its own checkpoints (load_state / resume on a used object), with a reused clustering
+    for every in (2, 3):
+        cfg = dict(cluster_every=every, n_max_clusters=None, normalize=True, sample="rwm", resample="mult")
+        seed = rng.randrange(10 ** 6)
+        what = dict(cfg=cfg, random_state=seed, probe="rollback of a used sampler to its own checkpoints")
+        try:
+            s, problems = hooked_run(run, dict(cfg), seed, what, outdir=work / f"rb{every}", rollback=True, n_particles=32)
+        except Exception as e:
+            import traceback
+            tb = traceback.format_exc()
+            if type(e).__name__ == "LinAlgError" and "fit_mvstud" in tb and "from_particles" in tb:
+                run.count("rollback probe aborted by the listed single-point-cluster finding")
+            else:
+                run.fail("clustered-run-raises", f"run / rollback raised {type(e).__name__}: {e}", **what)
+            continue
+        for p in problems[:2]:
+            key = "assignment-without-mode" if "refers to no mode" in p else ("label-rank-mismatch" if "indexed by rank" in p else
+                                                                              ("label-of-another-cluster" if ("not the cluster" in p or "different rules" in p) else "mode-ill-formed"))
+            run.fail(key, p, **what)
     run.sample(dict(cfgs=[str(c) for c in cfgs[:4]]))
 
 
@@ -487,16 +514,17 @@ def reused_clustering(run, tier, rng):
         n = len(u)
         norm = bool(tries % 2)
         resample = rng.choice(["syst", "mult"])
+        ce = [2, 3, 5][tries % 3]          # refit cadence: the model fitted at iteration ce is reused at ce+1 (and ce+2, ... for ce >= 3)
 
         def build():
             st = StateManager(2)
             st.update_current({"u": u, "x": u.copy(), "logl": np.zeros(n), "beta": 0.0, "logz": 0.0, "iter": 1})
             st.commit_current_to_history()
             st.set_current("beta", 0.3)
-            st.set_current("iter", 2)
+            st.set_current("iter", ce)
             cl = HierarchicalGaussianMixture(n_init=1, max_iterations=1000, min_points=None, threshold_modifier=1.0,
                                              covariance_type="full", verbose=False, normalize=norm)
-            tr = Trainer(state=st, clusterer=cl, cluster_every=2, clustering=True, TRIM_ESS=TRIM_ESS, TRIM_BINS=TRIM_BINS,
+            tr = Trainer(state=st, clusterer=cl, cluster_every=ce, clustering=True, TRIM_ESS=TRIM_ESS, TRIM_BINS=TRIM_BINS,
                          DOF_FALLBACK=DOF_FALLBACK)
             rs = Resampler(state=st, n_particles=32, resample=resample, clusterer=cl, clustering=True)
             np.random.seed(lseed % 1000)
@@ -515,14 +543,14 @@ def reused_clustering(run, tier, rng):
         for c in range(K0):
             for keep in (0, 1, 2, 3):
                 what = dict(probe="reused-clustering", layout_seed=lseed, blobs=nb, n_per_blob=n_per, normalize=norm, resample=resample,
-                            clusters_fitted=K0, starved_label=c, particles_kept=keep)
+                            clusters_fitted=K0, starved_label=c, particles_kept=keep, cluster_every=ce)
                 st, cl, tr, rs = build()
                 members = np.where(pool_lab == c)[0]
                 w = np.ones(n)
                 w[members[keep:]] = 1e-12
                 w /= w.sum()
                 st.set_current("beta", 0.6)
-                st.set_current("iter", 3)
+                st.set_current("iter", ce + 1)
                 rec = {}
                 orig_fp = ModeStatistics.from_particles.__func__
 
@@ -568,6 +596,40 @@ def reused_clustering(run, tier, rng):
                     if np.any(ms.means[k] < lo) or np.any(ms.means[k] > hi):
                         run.fail("label-rank-mismatch", f"mode {k} has location {ms.means[k]} outside the bounding box [{lo}, {hi}] of "
                                  f"the training points labelled {k}: it was not fitted from that cluster", **what)
+                        break
+                # the reuse iterations that follow before the next scheduled refit (cadence >= 3): the labels the Resampler hands out and the
+                # modes the Trainer returns must still belong to ONE model - mode k lies among the pool particles that model labels k
+                for it2 in range(ce + 2, 2 * ce):
+                    st.set_current("iter", it2)
+                    try:
+                        ms2 = tr.run(w.copy())
+                        rs.run(w.copy())
+                    except Exception as e:
+                        if type(e).__name__ != "LinAlgError":
+                            run.fail("train-resample-raises", f"reuse iteration {it2} raised {type(e).__name__}: {e}", **what)
+                        break
+                    asg2 = np.asarray(st.get_current("assignments"))
+                    ua2 = np.asarray(st.get_current("u"))
+                    run.case(key=("reuse-next", lseed, c, keep, it2), nontrivial=True)
+                    if asg2.min() < 0 or asg2.max() >= ms2.K:
+                        run.fail("assignment-without-mode", f"iteration {it2}: active labels {sorted(set(asg2.tolist()))} but only {ms2.K} modes", iteration=it2, **what)
+                        break
+                    live = w > 1e-9
+                    plab = cl.predict(u[live])
+                    bad2 = None
+                    for k in sorted(set(asg2.tolist())):
+                        pts = u[live][plab == k]
+                        if len(pts) == 0:
+                            bad2 = f"active label {k} has no pool particle of non-negligible weight under the current model"
+                            break
+                        lo, hi = pts.min(axis=0) - 0.05, pts.max(axis=0) + 0.05
+                        if np.any(ms2.means[k] < lo) or np.any(ms2.means[k] > hi):
+                            bad2 = (f"mode {k} is located at {ms2.means[k]} while the particles labelled {k} by the current model lie in [{lo + 0.05}, {hi - 0.05}]: "
+                                    f"labels and modes come from different models")
+                            break
+                    if bad2:
+                        run.fail("label-rank-mismatch", f"reuse iteration {it2} (cadence {ce}, the model was refitted at {ce + 1} because a cluster starved): {bad2}",
+                                 iteration=it2, **what)
                         break
     run.count(f"layouts with K>=2: {done} of {tries} tried")
 
